@@ -5,7 +5,11 @@ package main
 //	prefixes   blacklists of 2..6 path prefixes that are nested, overlapping, duplicated, empty, not terminated by a
 //	           slash, or whole file names, in any order, with files whose paths sort on both sides of every prefix;
 //	strictsub  FailOnMissingSubmodules = true: submodules registered in successive commits, at paths that sort
-//	           before and after ".gitmodules", under filters that drop the ".gitmodules" change itself.
+//	           before and after ".gitmodules", under filters that drop the ".gitmodules" change itself;
+//	reuse      a second analysis on the same items: a history is replayed, a branch is re-initialised (Initialize),
+//	           then an UNRELATED history (another root) is replayed on it - it must be accepted and listed as a
+//	           first commit (finding F24, repaired by 3598ee8: Initialize used to keep previousCommit) - and the
+//	           branch goes on, forks, and is re-initialised again.
 
 import (
 	"fmt"
@@ -263,11 +267,62 @@ func strictCase(rng *rand.Rand) caseT {
 	return caseT{kind: "strictsub", cfg: cfg, commits: commits, ops: ops}
 }
 
+// reuseCase: two or three independent histories in one repository, replayed one after the other on the same items
+func reuseCase(rng *rand.Rand) caseT {
+	cfg := stableCfg(rng)
+	if rng.Intn(4) == 0 {
+		skip, _ := nestedPrefixes(rng)
+		cfg.blacklist, cfg.skip = true, skip
+	}
+	noSubFlip = restrictsLanguages(cfg)
+	defer func() { noSubFlip = false }()
+	var parents [][]int
+	var ops []opT
+	ops = append(ops, opT{kind: "fork", b: 0, n: 1}) // branch 1: a clone that has consumed nothing
+	nb := 2
+	cur := 0 // the branch that carries the analysis
+	for part, nparts := 0, 2+rng.Intn(2); part < nparts; part++ {
+		base := len(parents)
+		k := 1 + rng.Intn(4)
+		for j := 0; j < k; j++ {
+			if j == 0 {
+				parents = append(parents, nil)
+			} else {
+				parents = append(parents, []int{base + j - 1})
+			}
+			ops = append(ops, opT{kind: "consume", b: cur, c: base + j})
+		}
+		if part == nparts-1 {
+			break
+		}
+		switch rng.Intn(5) {
+		case 0: // the next analysis runs on a fork of the branch (a forked BlobCache has no logger until Initialize)
+			ops = append(ops, opT{kind: "fork", b: cur, n: 1})
+			cur = nb
+			nb++
+		case 1: // an attempt without Initialize: the unrelated root must be refused, then the re-use proper
+			ops = append(ops, opT{kind: "consume", b: cur, c: base + k})
+		}
+		ops = append(ops, opT{kind: "init", b: cur})
+		if rng.Intn(4) == 0 {
+			ops = append(ops, opT{kind: "init", b: cur}) // twice in a row
+		}
+	}
+	// the last commit once more on the pristine clone (first listing there as well)
+	if rng.Intn(2) == 0 {
+		ops = append(ops, opT{kind: "consume", b: 1, c: len(parents) - 1})
+	}
+	return caseT{kind: "reuse", cfg: cfg, commits: history(rng, parents), ops: ops}
+}
+
 func round3(c *Config) {
-	for i := c.Count(1000, 8000); i > 0; i-- {
+	for i := c.Count(400, 4000); i > 0; i-- {
+		emit(c, reuseCase(c.Rng))
+	}
+	for i := c.Count(800, 8000); i > 0; i-- {
 		emit(c, prefixCase(c.Rng))
 	}
-	for i := c.Count(1000, 8000); i > 0; i-- {
+	for i := c.Count(800, 8000); i > 0; i-- {
 		emit(c, strictCase(c.Rng))
 	}
 }
